@@ -1,3 +1,15 @@
+Model/Term.vo Model/Term.glob Model/Term.v.beautified Model/Term.required_vo: Model/Term.v 
+Model/Term.vio: Model/Term.v 
+Model/Term.vos Model/Term.vok Model/Term.required_vos: Model/Term.v 
+Model/Unify.vo Model/Unify.glob Model/Unify.v.beautified Model/Unify.required_vo: Model/Unify.v Model/Term.vo
+Model/Unify.vio: Model/Unify.v Model/Term.vio
+Model/Unify.vos Model/Unify.vok Model/Unify.required_vos: Model/Unify.v Model/Term.vos
+Model/Clause.vo Model/Clause.glob Model/Clause.v.beautified Model/Clause.required_vo: Model/Clause.v Model/Term.vo Model/Unify.vo
+Model/Clause.vio: Model/Clause.v Model/Term.vio Model/Unify.vio
+Model/Clause.vos Model/Clause.vok Model/Clause.required_vos: Model/Clause.v Model/Term.vos Model/Unify.vos
+Model/Order.vo Model/Order.glob Model/Order.v.beautified Model/Order.required_vo: Model/Order.v Model/Term.vo Model/Unify.vo
+Model/Order.vio: Model/Order.v Model/Term.vio Model/Unify.vio
+Model/Order.vos Model/Order.vok Model/Order.required_vos: Model/Order.v Model/Term.vos Model/Unify.vos
 Model/GoInt.vo Model/GoInt.glob Model/GoInt.v.beautified Model/GoInt.required_vo: Model/GoInt.v 
 Model/GoInt.vio: Model/GoInt.v 
 Model/GoInt.vos Model/GoInt.vok Model/GoInt.required_vos: Model/GoInt.v 
@@ -16,9 +28,33 @@ Model/Eval.vos Model/Eval.vok Model/Eval.required_vos: Model/Eval.v Model/GoInt.
 Model/EvalCheck.vo Model/EvalCheck.glob Model/EvalCheck.v.beautified Model/EvalCheck.required_vo: Model/EvalCheck.v Model/GoInt.vo Model/F64.vo Model/Num.vo Gen/Arith_gen.vo Model/Eval.vo
 Model/EvalCheck.vio: Model/EvalCheck.v Model/GoInt.vio Model/F64.vio Model/Num.vio Gen/Arith_gen.vio Model/Eval.vio
 Model/EvalCheck.vos Model/EvalCheck.vok Model/EvalCheck.required_vos: Model/EvalCheck.v Model/GoInt.vos Model/F64.vos Model/Num.vos Gen/Arith_gen.vos Model/Eval.vos
+Model/Machine.vo Model/Machine.glob Model/Machine.v.beautified Model/Machine.required_vo: Model/Machine.v Model/Term.vo Model/Unify.vo Model/Clause.vo Model/Order.vo Model/GoInt.vo Model/F64.vo Model/Num.vo Gen/Arith_gen.vo Model/Eval.vo
+Model/Machine.vio: Model/Machine.v Model/Term.vio Model/Unify.vio Model/Clause.vio Model/Order.vio Model/GoInt.vio Model/F64.vio Model/Num.vio Gen/Arith_gen.vio Model/Eval.vio
+Model/Machine.vos Model/Machine.vok Model/Machine.required_vos: Model/Machine.v Model/Term.vos Model/Unify.vos Model/Clause.vos Model/Order.vos Model/GoInt.vos Model/F64.vos Model/Num.vos Gen/Arith_gen.vos Model/Eval.vos
+Model/Sld.vo Model/Sld.glob Model/Sld.v.beautified Model/Sld.required_vo: Model/Sld.v Model/Term.vo Model/Unify.vo Model/Order.vo Model/GoInt.vo Model/F64.vo Model/Num.vo Gen/Arith_gen.vo Model/Eval.vo Model/Machine.vo
+Model/Sld.vio: Model/Sld.v Model/Term.vio Model/Unify.vio Model/Order.vio Model/GoInt.vio Model/F64.vio Model/Num.vio Gen/Arith_gen.vio Model/Eval.vio Model/Machine.vio
+Model/Sld.vos Model/Sld.vok Model/Sld.required_vos: Model/Sld.v Model/Term.vos Model/Unify.vos Model/Order.vos Model/GoInt.vos Model/F64.vos Model/Num.vos Gen/Arith_gen.vos Model/Eval.vos Model/Machine.vos
+Gen/Bootstrap_gen.vo Gen/Bootstrap_gen.glob Gen/Bootstrap_gen.v.beautified Gen/Bootstrap_gen.required_vo: Gen/Bootstrap_gen.v Model/Term.vo
+Gen/Bootstrap_gen.vio: Gen/Bootstrap_gen.v Model/Term.vio
+Gen/Bootstrap_gen.vos Gen/Bootstrap_gen.vok Gen/Bootstrap_gen.required_vos: Gen/Bootstrap_gen.v Model/Term.vos
+Model/Boot.vo Model/Boot.glob Model/Boot.v.beautified Model/Boot.required_vo: Model/Boot.v Model/Term.vo Model/Unify.vo Model/Clause.vo Model/Order.vo Model/GoInt.vo Model/F64.vo Model/Num.vo Gen/Arith_gen.vo Model/Eval.vo Model/Machine.vo Gen/Bootstrap_gen.vo
+Model/Boot.vio: Model/Boot.v Model/Term.vio Model/Unify.vio Model/Clause.vio Model/Order.vio Model/GoInt.vio Model/F64.vio Model/Num.vio Gen/Arith_gen.vio Model/Eval.vio Model/Machine.vio Gen/Bootstrap_gen.vio
+Model/Boot.vos Model/Boot.vok Model/Boot.required_vos: Model/Boot.v Model/Term.vos Model/Unify.vos Model/Clause.vos Model/Order.vos Model/GoInt.vos Model/F64.vos Model/Num.vos Gen/Arith_gen.vos Model/Eval.vos Model/Machine.vos Gen/Bootstrap_gen.vos
+Model/MachineCheck.vo Model/MachineCheck.glob Model/MachineCheck.v.beautified Model/MachineCheck.required_vo: Model/MachineCheck.v Model/Term.vo Model/Unify.vo Model/Clause.vo Model/Machine.vo Model/Boot.vo Model/Sld.vo Gen/Bootstrap_gen.vo
+Model/MachineCheck.vio: Model/MachineCheck.v Model/Term.vio Model/Unify.vio Model/Clause.vio Model/Machine.vio Model/Boot.vio Model/Sld.vio Gen/Bootstrap_gen.vio
+Model/MachineCheck.vos Model/MachineCheck.vok Model/MachineCheck.required_vos: Model/MachineCheck.v Model/Term.vos Model/Unify.vos Model/Clause.vos Model/Machine.vos Model/Boot.vos Model/Sld.vos Gen/Bootstrap_gen.vos
 Proofs/ArithInt.vo Proofs/ArithInt.glob Proofs/ArithInt.v.beautified Proofs/ArithInt.required_vo: Proofs/ArithInt.v Model/GoInt.vo Model/F64.vo Model/Num.vo Gen/Arith_gen.vo
 Proofs/ArithInt.vio: Proofs/ArithInt.v Model/GoInt.vio Model/F64.vio Model/Num.vio Gen/Arith_gen.vio
 Proofs/ArithInt.vos Proofs/ArithInt.vok Proofs/ArithInt.required_vos: Proofs/ArithInt.v Model/GoInt.vos Model/F64.vos Model/Num.vos Gen/Arith_gen.vos
 Props/C07.vo Props/C07.glob Props/C07.v.beautified Props/C07.required_vo: Props/C07.v Model/GoInt.vo Model/F64.vo Model/Num.vo Gen/Arith_gen.vo Proofs/ArithInt.vo
 Props/C07.vio: Props/C07.v Model/GoInt.vio Model/F64.vio Model/Num.vio Gen/Arith_gen.vio Proofs/ArithInt.vio
 Props/C07.vos Props/C07.vok Props/C07.required_vos: Props/C07.v Model/GoInt.vos Model/F64.vos Model/Num.vos Gen/Arith_gen.vos Proofs/ArithInt.vos
+Proofs/Promise.vo Proofs/Promise.glob Proofs/Promise.v.beautified Proofs/Promise.required_vo: Proofs/Promise.v Model/Term.vo Model/Unify.vo Model/Clause.vo Model/Machine.vo
+Proofs/Promise.vio: Proofs/Promise.v Model/Term.vio Model/Unify.vio Model/Clause.vio Model/Machine.vio
+Proofs/Promise.vos Proofs/Promise.vok Proofs/Promise.required_vos: Proofs/Promise.v Model/Term.vos Model/Unify.vos Model/Clause.vos Model/Machine.vos
+Proofs/Trampoline.vo Proofs/Trampoline.glob Proofs/Trampoline.v.beautified Proofs/Trampoline.required_vo: Proofs/Trampoline.v Model/Term.vo Model/Unify.vo Model/Clause.vo Model/Machine.vo
+Proofs/Trampoline.vio: Proofs/Trampoline.v Model/Term.vio Model/Unify.vio Model/Clause.vio Model/Machine.vio
+Proofs/Trampoline.vos Proofs/Trampoline.vok Proofs/Trampoline.required_vos: Proofs/Trampoline.v Model/Term.vos Model/Unify.vos Model/Clause.vos Model/Machine.vos
+Props/C01.vo Props/C01.glob Props/C01.v.beautified Props/C01.required_vo: Props/C01.v Model/Term.vo Model/Unify.vo Model/Clause.vo Model/Machine.vo Proofs/Promise.vo Proofs/Trampoline.vo
+Props/C01.vio: Props/C01.v Model/Term.vio Model/Unify.vio Model/Clause.vio Model/Machine.vio Proofs/Promise.vio Proofs/Trampoline.vio
+Props/C01.vos Props/C01.vok Props/C01.required_vos: Props/C01.v Model/Term.vos Model/Unify.vos Model/Clause.vos Model/Machine.vos Proofs/Promise.vos Proofs/Trampoline.vos
